@@ -168,6 +168,11 @@ impl<T> RcInner<T> {
     ///
     /// The given `ptr` must not be shared across more than one thread.
     pub(crate) unsafe fn dealloc(ptr: *mut Self) {
+        vevent!(Dealloc { obj: ptr as usize });
+        #[cfg(feature = "circ_verif")]
+        if crate::verif::quarantine(ptr as usize) {
+            return;
+        }
         drop(Box::from_raw(ptr));
     }
 
@@ -183,6 +188,7 @@ impl<T> RcInner<T> {
 
     #[inline]
     pub(crate) fn increment_strong(&self) -> bool {
+        vpoint!(State, self as *const Self);
         let val = State::from_raw(self.state.fetch_add(COUNT, Ordering::SeqCst));
         if val.destructed() {
             return false;
@@ -190,6 +196,7 @@ impl<T> RcInner<T> {
         if val.strong() == 0 {
             // The previous fetch_add created a permission to run decrement again.
             // Now create an actual reference.
+            vpoint!(State, self as *const Self);
             self.state.fetch_add(COUNT, Ordering::SeqCst);
         }
         true
@@ -197,6 +204,11 @@ impl<T> RcInner<T> {
 
     #[inline]
     unsafe fn try_dealloc(ptr: *mut Self) {
+        vevent!(RcRun {
+            kind: 1,
+            obj: ptr as usize
+        });
+        vpoint!(State, ptr);
         if State::from_raw((*ptr).state.load(Ordering::SeqCst)).weak() > 0 {
             Self::decrement_weak(ptr, None);
         } else {
@@ -206,11 +218,13 @@ impl<T> RcInner<T> {
 
     #[inline]
     pub(crate) fn increment_weak(&self, count: u32) {
+        vpoint!(State, self as *const Self);
         let mut old = State::from_raw(self.state.load(Ordering::SeqCst));
         while !old.weaked() {
             // In this case, `increment_weak` must have been called from `Rc::downgrade`,
             // guaranteeing weak > 0, so it can’t be incremented from 0.
             debug_assert!(old.weak() != 0);
+            vpoint!(State, self as *const Self);
             match self.state.compare_exchange(
                 old.as_raw(),
                 old.with_weaked(true).add_weak(count).as_raw(),
@@ -221,6 +235,7 @@ impl<T> RcInner<T> {
                 Err(curr) => old = State::from_raw(curr),
             }
         }
+        vpoint!(State, self as *const Self);
         if State::from_raw(
             self.state
                 .fetch_add(count as u64 * WEAK_COUNT, Ordering::SeqCst),
@@ -228,6 +243,7 @@ impl<T> RcInner<T> {
         .weak()
             == 0
         {
+            vpoint!(State, self as *const Self);
             self.state.fetch_add(WEAK_COUNT, Ordering::SeqCst);
         }
     }
@@ -235,15 +251,22 @@ impl<T> RcInner<T> {
     #[inline]
     pub(crate) unsafe fn decrement_weak(ptr: *mut Self, guard: Option<&Guard>) {
         debug_assert!(State::from_raw((*ptr).state.load(Ordering::SeqCst)).weak() >= 1);
+        vpoint!(State, ptr);
         if State::from_raw((*ptr).state.fetch_sub(WEAK_COUNT, Ordering::SeqCst)).weak() == 1 {
+            vevent!(RcDefer {
+                kind: 1,
+                obj: ptr as usize
+            });
             guard.defer_with_inner(ptr, |inner| Self::try_dealloc(inner));
         }
     }
 
     #[inline]
     pub(crate) fn is_not_destructed(&self) -> bool {
+        vpoint!(State, self as *const Self);
         let mut old = State::from_raw(self.state.load(Ordering::SeqCst));
         while !old.destructed() && old.strong() == 0 {
+            vpoint!(State, self as *const Self);
             match self.state.compare_exchange(
                 old.as_raw(),
                 old.add_strong(1).as_raw(),
@@ -261,11 +284,14 @@ impl<T> RcInner<T> {
 impl<T: RcObject> RcInner<T> {
     #[inline]
     pub(crate) unsafe fn decrement_strong(ptr: *mut Self, count: u32, guard: Option<&Guard>) {
+        vpoint!(EpochRead, 0usize);
         let epoch = global_epoch();
         // Should mark the current epoch on the strong count with CAS.
         let hit_zero = loop {
+            vpoint!(State, ptr);
             let curr = State::from_raw((*ptr).state.load(Ordering::SeqCst));
             debug_assert!(curr.strong() >= count);
+            vpoint!(State, ptr);
             if (*ptr)
                 .state
                 .compare_exchange(
@@ -282,6 +308,10 @@ impl<T: RcObject> RcInner<T> {
 
         let trigger_recl = |guard: &Guard| {
             if hit_zero {
+                vevent!(RcDefer {
+                    kind: 0,
+                    obj: ptr as usize
+                });
                 guard.defer_with_inner(ptr, |inner| Self::try_destruct(inner));
             }
             // Periodically triggers a collection.
@@ -297,6 +327,11 @@ impl<T: RcObject> RcInner<T> {
 
     #[inline]
     unsafe fn try_destruct(ptr: *mut Self) {
+        vevent!(RcRun {
+            kind: 0,
+            obj: ptr as usize
+        });
+        vpoint!(State, ptr);
         let mut old = State::from_raw((*ptr).state.load(Ordering::SeqCst));
         debug_assert!(!old.destructed());
         loop {
@@ -304,6 +339,7 @@ impl<T: RcObject> RcInner<T> {
                 Self::decrement_strong(ptr, 1, None);
                 return;
             }
+            vpoint!(State, ptr);
             match (*ptr).state.compare_exchange(
                 old.as_raw(),
                 old.with_destructed(true).as_raw(),
@@ -320,6 +356,9 @@ impl<T: RcObject> RcInner<T> {
 
 #[inline]
 unsafe fn dispose<T: RcObject>(inner: *mut RcInner<T>) {
+    vevent!(DestructDecided {
+        obj: inner as usize
+    });
     DISPOSE_COUNTER.with(|counter| {
         let guard = &cs();
         dispose_general_node(inner, 0, counter, guard);
@@ -348,14 +387,20 @@ unsafe fn dispose_general_node<T: RcObject>(
 
     if depth >= 1024 {
         // Prevent a potential stack overflow.
+        vevent!(RcDefer {
+            kind: 0,
+            obj: rc as *const RcInner<T> as usize
+        });
         guard.defer_with_inner(rc, |rc| RcInner::try_destruct(rc));
         return;
     }
 
+    vpoint!(State, rc as *const RcInner<T>);
     let state = State::from_raw(rc.state.load(Ordering::SeqCst));
     let node_epoch = state.epoch();
     debug_assert_eq!(state.strong(), 0);
 
+    vpoint!(EpochRead, 0usize);
     let curr_epoch = global_epoch();
     let modu: Modular<EPOCH_WIDTH> = Modular::new(curr_epoch as isize + 1);
     let mut outgoings = Vec::new();
@@ -364,9 +409,17 @@ unsafe fn dispose_general_node<T: RcObject>(
     // old enough, `modu.le` may return false.
     if depth == 0 || modu.le(node_epoch as _, curr_epoch as isize - 3) {
         // The current node is immediately reclaimable.
+        vevent!(DestructBegin {
+            obj: rc as *const RcInner<T> as usize,
+            depth
+        });
         rc.data_mut().pop_edges(&mut outgoings);
         unsafe {
             ManuallyDrop::drop(&mut rc.storage);
+            vevent!(DestructEnd {
+                obj: rc as *const RcInner<T> as usize
+            });
+            vpoint!(State, rc as *const RcInner<T>);
             if State::from_raw(rc.state.load(Ordering::SeqCst)).weaked() {
                 RcInner::decrement_weak(rc, Some(guard));
             } else {
@@ -384,11 +437,13 @@ unsafe fn dispose_general_node<T: RcObject>(
 
             // Decrement next node's strong count and update its epoch.
             let next_cnt = loop {
+                vpoint!(State, next_ref as *const RcInner<T>);
                 let cnt_curr = State::from_raw(next_ref.state.load(Ordering::SeqCst));
                 let next_epoch =
                     modu.max(&[node_epoch as _, link_epoch as _, cnt_curr.epoch() as _]);
                 let cnt_next = cnt_curr.sub_strong(1).with_epoch(next_epoch as _);
 
+                vpoint!(State, next_ref as *const RcInner<T>);
                 if next_ref
                     .state
                     .compare_exchange(
@@ -410,6 +465,10 @@ unsafe fn dispose_general_node<T: RcObject>(
         }
     } else {
         // It is likely to be unsafe to reclaim right now.
+        vevent!(RcDefer {
+            kind: 0,
+            obj: rc as *const RcInner<T> as usize
+        });
         guard.defer_with_inner(rc, |rc| RcInner::try_destruct(rc));
     }
 }
